@@ -100,11 +100,15 @@ def gen_op(rng, ci, j, keys, counters, big_n):
         op = {'op': name, 'k': k, 'v': uniq_value(rng, ci, j, big_n)}
         if name != 'setitem' and rng.random() < 0.4:
             op['retry'] = True
+        if name != 'setitem' and rng.random() < 0.35:
+            op['tag'] = 'tag-c%d-%d' % (ci, j)      # unique, so a reader's (value, tag) pair is attributable to one write
         return op
     if name == 'get':
         op = {'op': 'get', 'k': k}
         if rng.random() < 0.3:
             op['default'] = 'dflt'
+        if rng.random() < 0.35:
+            op['tag'] = True
         return op
     if name == 'pop':
         op = {'op': 'pop', 'k': k}
